@@ -23,7 +23,7 @@ func init() {
 	core.Register(&core.Rule{
 		ID:    "R16.2",
 		Title: "unknown keys are errors; the stored original is what is returned",
-		Text: "Both BatchKeySet implementations: LocateOriginalKeyFromReader assigns a non-nil error on the not-found edge and returns it; the generic LocateOriginalKey returns the element of the hash bucket (range value), never its parameter.",
+		Text:  "Both BatchKeySet implementations: LocateOriginalKeyFromReader assigns a non-nil error on the not-found edge and returns it; the generic LocateOriginalKey returns the element of the hash bucket (range value), never its parameter.",
 		Props: []string{"C16"},
 		Floor: map[string]int{"v2": 3, "root": 3},
 		Run:   runR162,
@@ -40,7 +40,7 @@ func init() {
 	core.Register(&core.Rule{
 		ID:    "R16.4",
 		Title: "hash / equality pairing per key kind",
-		Text: "Every genericBatchKeySet literal pairs a hash with the matching equality: ComputeComplexKeyHash with ComplexKeyEquals (key part only on both sides), ComputeHash with Equals, HashBytes with equals.Bytes, CustomTyperefHasher with CustomTyperefEquals.",
+		Text:  "Every genericBatchKeySet literal pairs a hash with the matching equality: ComputeComplexKeyHash with ComplexKeyEquals (key part only on both sides), ComputeHash with Equals, HashBytes with equals.Bytes, CustomTyperefHasher with CustomTyperefEquals.",
 		Props: []string{"C16", "C10"},
 		Floor: map[string]int{"v2": 6, "root": 5},
 		Run:   runR164,
@@ -48,7 +48,7 @@ func init() {
 	core.Register(&core.Rule{
 		ID:    "R16.5",
 		Title: "each id encoded once; ids sorted before being written",
-		Text: "encodeKeys of both implementations appends exactly one encoding per stored key inside loops over every bucket/key and nothing else; encode calls sort.Strings on that slice before the array is written, and writes each element once, in order.",
+		Text:  "encodeKeys of both implementations appends exactly one encoding per stored key inside loops over every bucket/key and nothing else; encode calls sort.Strings on that slice before the array is written, and writes each element once, in order.",
 		Props: []string{"C16", "C09"},
 		Floor: map[string]int{"v2": 3, "root": 3},
 		Run:   runR165,
